@@ -234,6 +234,9 @@ func c18RunPart(env *mc.Env, p *c18Part) {
 		res.Capped = fmt.Sprintf("time budget hit after %d of %d cases", done, total)
 	}
 	c18Vacuity(res, p.name)
+	if n := res.Counters["diag_number_of_nodes_passed_with_fewer_node_low_nodes"]; n > 0 {
+		res.Diag(fmt.Sprintf("not judged (outside the statement): in %d rounds the NumberOfNodes gate let evictions pass although no more than NumberOfNodes nodes were under the node-level low thresholds; the gate also counts nodes between the thresholds as 'prod-underused' because an unset prod low threshold defaults to 100 %%", n))
+	}
 	env.Emit(res)
 }
 
@@ -482,7 +485,7 @@ func c18DevPart(name string, nodes int, allocs []c18Vec) *c18Part {
 func c18MemPart(name string, nodes int) *c18Part {
 	thr := [][2][2]int{{{30, 30}, {60, 60}}, {{45, 30}, {45, 60}}}
 	prod := [][2][2]int{c18ProdNo, {{10, 10}, {30, 30}}}
-	cfgs := c18CfgProduct(thr, prod, []int32{0}, []bool{false, true}, []uint32{0, 1}, []int{0}, false)
+	cfgs := c18CfgProduct(thr, prod, []int32{0}, []bool{false, true}, []uint32{0, 1}, []int{0, 1, 2}, false)
 	alloc := c18AllocA
 	gi := int64(1) << 30
 	templates := [][]c18Pod{
@@ -508,7 +511,7 @@ func c18MemPart(name string, nodes int) *c18Part {
 			rd.Nodes = append(rd.Nodes, alpha[ms[int(i)*nodes+j]])
 		}
 	}
-	p.rule = fmt.Sprintf("cpu and memory both thresholded: every multiset of %d nodes over %d node configurations (cpu level {10,50,90}%% x memory level {10,50,90}%% x 3 pod sets with independent cpu/memory usage + a node without metric) x thresholds cpu/mem {(30,60)/(30,60),(45,45)/(30,60)} x prod {off,(10,30)/(10,30)} x NodeFit {off,on} x Evict failure {none, first call}", nodes, len(alpha))
+	p.rule = fmt.Sprintf("cpu and memory both thresholded: every multiset of %d nodes over %d node configurations (cpu level {10,50,90}%% x memory level {10,50,90}%% x 3 pod sets with independent cpu/memory usage + a node without metric) x thresholds cpu/mem {(30,60)/(30,60),(45,45)/(30,60)} x prod {off,(10,30)/(10,30)} x NodeFit {off,on} x Evict failure {none, first call} x rejection mechanism {evictor filter, excluded namespace, pod selector}", nodes, len(alpha))
 	p.bounds = map[string]any{"nodes": nodes, "node_alphabet": len(alpha)}
 	return p
 }
@@ -545,16 +548,21 @@ func TestVerifC18Round(t *testing.T) {
 		parts = append(parts, c18LoopPart("round-loop", false))
 		parts = append(parts, c18GatePart("round-gate", 3, []c18Vec{c18AllocA}, false))
 	}
-	// cumulative deadlines proportional to the size of the parts (a slow machine caps every part a little instead
-	// of starving the last one)
+	// every part gets the share of the REMAINING budget that corresponds to its share of the remaining cases, so a
+	// slow machine caps every part a little instead of starving the last ones, and parts that finish early pass
+	// their time on
 	total := env.Budget
-	var all, cum int64
-	for _, p := range parts {
-		all += p.size*int64(len(p.cfgs)) + 20000
-	}
-	for _, p := range parts {
-		cum += p.size*int64(len(p.cfgs)) + 20000
-		env.Budget = time.Duration(float64(total) * float64(cum) / float64(all))
+	weight := func(p *c18Part) float64 { return float64(p.size*int64(len(p.cfgs)) + 20000) }
+	for pi, p := range parts {
+		var rest float64
+		for _, q := range parts[pi:] {
+			rest += weight(q)
+		}
+		now := env.Elapsed()
+		env.Budget = now + time.Duration(float64(total-now)*weight(p)/rest)
+		if total <= now {
+			env.Budget = now
+		}
 		c18RunPart(env, p)
 	}
 }
